@@ -273,6 +273,15 @@ def apply_op(sd, ni, op):
                 if isinstance(e, Injected):
                     raise
             return "none", "NOP"
+        if kind == "rawcands":
+            # candidates without any minification (usually several spurious ones stay in the list)
+            for j in ([x for x in sd.node_ids() if sd.node_data(x)["expanded"]] if op[1] == "all" else [op[1] % n]):
+                try:
+                    sd.node_attractor_candidates(j, compute=True, greedy_asp_minification=False, simulation_minification=False)
+                except RuntimeError as e:
+                    if isinstance(e, Injected):
+                        raise
+            return "none", "NOP"
         if kind == "seedsq":
             try:
                 sd.node_attractor_seeds(op[1] % n, compute=True)
@@ -384,7 +393,15 @@ def run_plain_history(case, judge_leaves=False, literal=True):
     ops = list(case["ops"])
     if case.get("final_full"):
         ops = ops + [["bfs", 0, None, None]]
+    cur_mm = case.get("max_motifs", 100000)
     for k, op in enumerate(ops):
+        if op[0] == "setmm":
+            # the user relaxes (or tightens) the stable-motif limit on the same diagram
+            sd.config["max_motifs_per_node"] = op[1]
+            cur_mm = op[1]
+            lines.append(f"CFG {op[1]}")
+            expect.append(("cfg", "OK"))
+            continue
         if op[0] == "pickle":
             sd = pickle.loads(pickle.dumps(sd))
         nbefore = len(sd)
@@ -437,7 +454,7 @@ def run_plain_history(case, judge_leaves=False, literal=True):
         expect.append(("judge", "OK", "after the final unrestricted BFS"))
         lines.append("LEAVES " + final)
         expect.append(("judge", "OK", "leaves after the final unrestricted BFS"))
-        fresh = make_sd(case)
+        fresh = make_sd(dict(case, max_motifs=cur_mm))
         try:
             fr = fresh.expand_bfs()
         except RuntimeError:
